@@ -169,7 +169,12 @@ double GammaLn(double x)
 
 double Gamma(double x)
 {
-	return exp(GammaLn(x));
+	if(x <= 0)
+	{
+		std::cerr << "Error in libphysica::Gamma(x): x<=0." << std::endl;
+		std::exit(EXIT_FAILURE);
+	}
+	return std::tgamma(x);
 }
 
 double Upper_Incomplete_Gamma(double x, double s)
